@@ -2,10 +2,10 @@ SPECIFICATION GenSpec
 CONSTANTS
   Opens <- AlphaSet
   Forms = {"plain"}
-  Alpha = "q5"
+  Alpha = "q6"
   MaxLen = 7
-  MaxDepth = 6
-  Lax = FALSE
+  MaxDepth = 5
+  Lax = TRUE
 INVARIANTS Lattice WellNested ContentModelOK DocOrder RefOK
 CONSTRAINT Emit
 CHECK_DEADLOCK FALSE
